@@ -704,6 +704,8 @@ func adjustAdaptationSetForSegmentNumber(cfg *ResponseConfig, a *asset, as *m.Ad
 	if cfg.StartNr != nil {
 		startNr := Ptr(uint32(*cfg.StartNr))
 		as.SegmentTemplate.StartNumber = startNr
+	} else {
+		as.SegmentTemplate.StartNumber = nil // implicit start number 1, not the one of the VoD asset
 	}
 	as.SegmentTemplate.Media = strings.ReplaceAll(as.SegmentTemplate.Media, "$Time$", "$Number$")
 	return nil
